@@ -181,7 +181,8 @@ class Counters(Monitor):
                 if prev_done is not None and r0["icalls_done"] == prev_done:
                     world.violate(P, P + ".cb_once_per_step", "round %d invoked again without a new step" % ri)
                 prev_done = r0["icalls_done"]
-                last_round_of_terminated = (ri == len(rounds) - 1) and op.get("events") and "terminated upon finding" in snap["status"]
+                # a terminal event at (numerically) the starting point rolls the whole step back: one final round, no new row
+                last_round_of_terminated = (ri == len(rounds) - 1) and op.get("events") and snap["counts"].get("nested_integrate", 0) > 0
                 if not (r0["len"] > prev_len) and not (last_round_of_terminated and r0["len"] >= prev_len):
                     world.violate(P, P + ".cb_after_record", "round %d: len(system)=%d not beyond %d" % (ri, r0["len"], prev_len))
                 prev_len = r0["len"]
@@ -444,6 +445,9 @@ class Dense(Monitor):
         if sol is None or sol.t_eval is None:
             world.violate(P, P + ".coverage", "%d steps recorded but dense output is empty" % (n - 1))
             return
+        dd = np.diff(t)
+        if not (np.all(dd > 0) or np.all(dd < 0)):
+            return      # history with a reversal of direction: a single-valued dense output is not defined, not claimed
         rich = any(c["kind"] == "rich" for c in world.icalls if c["depth"] == 0 and c["ok"])
         te = [np.asarray(x) for x in sol.t_eval]
         tev = np.array([x for x in te])
@@ -506,6 +510,10 @@ class Dense(Monitor):
                 else:
                     bound = (atol + rtol * float(np.max(np.abs(yy)))) + 64 * eps * sc
                     world.ratio(P + ".grid_reproduction_richardson", err / bound)
+                    gross = 0.05 * (float(np.max(np.abs(yy))) + float(np.max(np.abs(y[j + 1] - y[j]))) + 1e-300)
+                    if err > gross:
+                        world.violate(P, P + ".grid_reproduction_richardson_gross", "sol(t[%d]) differs from the recorded state by %.3e (> %.3e): not even close"
+                                      % (j if name == "left" else j + 1, err, gross))
                     if err > self.K_rich * bound:
                         world.violate(P, P + ".grid_reproduction_richardson", "sol(t[%d]) differs from the recorded state by %.3e (> %g*%.3e)"
                                       % (j if name == "left" else j + 1, err, self.K_rich, bound))
